@@ -291,7 +291,68 @@ pub fn run(run: &Run) -> (u64, u64) {
     par_for(longs.len(), |i| try_one(run, &t, &longs[i], "long-inputs"));
     let n5 = t.tried.load(Ordering::Relaxed) - before;
     run.family("FEN-LONG-INPUTS", "5 prefixes x 0..=140 (thorough 300) ASCII pad characters x a 2-, 3- and 4-byte character, followed by more text; very long repetitions", n5, n5, true, "");
-    let n4 = n4 + n5;
+    // (6) material extremes: the reader builds the evaluation accumulators, so any number of any man must be readable
+    // (or refused) without a crash
+    let letters: Vec<char> = "PNBRQKpnbrqk".chars().collect();
+    let board_of = |cells: &[char]| -> String {
+        let mut out = String::new();
+        for r in 0..8 {
+            if r > 0 {
+                out.push('/');
+            }
+            let mut gap = 0;
+            for f in 0..8 {
+                let c = cells[r * 8 + f];
+                if c == '.' {
+                    gap += 1;
+                } else {
+                    if gap > 0 {
+                        out.push_str(&gap.to_string());
+                        gap = 0;
+                    }
+                    out.push(c);
+                }
+            }
+            if gap > 0 {
+                out.push_str(&gap.to_string());
+            }
+        }
+        out
+    };
+    let mut mats: Vec<String> = vec![];
+    for &x in &letters {
+        for n in 0..=64usize {
+            let mut cells = vec!['.'; 64];
+            for c in cells.iter_mut().take(n) {
+                *c = x;
+            }
+            for side in ["w", "b"] {
+                mats.push(format!("{} {side} - - 0 1", board_of(&cells)));
+            }
+            if n <= 62 {
+                let mut c2 = cells.clone();
+                c2[62] = 'K';
+                c2[63] = 'k';
+                mats.push(format!("{} w - - 0 1", board_of(&c2)));
+                c2[62] = 'k';
+                c2[63] = 'K';
+                mats.push(format!("{} b - - 0 1", board_of(&c2)));
+            }
+        }
+    }
+    for &x in &letters {
+        for &y in &letters {
+            for n in (0..=64usize).step_by(8) {
+                let cells: Vec<char> = (0..64).map(|i| if i < n { x } else { y }).collect();
+                mats.push(format!("{} w - - 0 1", board_of(&cells)));
+            }
+        }
+    }
+    let before = t.tried.load(Ordering::Relaxed);
+    par_for(mats.len(), |i| try_one(run, &t, &mats[i], "material"));
+    let n6 = t.tried.load(Ordering::Relaxed) - before;
+    run.family("FEN-MATERIAL", "each of the 12 man letters on the first n squares, n = 0..=64, both sides to move, with and without the two kings added; all ordered pairs of letters splitting the board at every rank", n6, n6, true, "");
+    let n4 = n4 + n5 + n6;
     run.count("fen_strings_tried", t.tried.load(Ordering::Relaxed));
     run.count("fen_strings_accepted", t.accepted.load(Ordering::Relaxed));
     run.count("fen_strings_rejected", t.rejected.load(Ordering::Relaxed));
